@@ -2,7 +2,7 @@
 From Coq Require Import List Arith Lia Bool PeanoNat String.
 Import ListNotations.
 Notation length := List.length.
-From SP Require Import Skel Gen Expected NetA Inv Pres Dead Top Ghost GhostPres Term Early NetTop.
+From SP Require Import Skel Gen Expected ExpectedCones NetA Inv Pres Dead Top Ghost GhostPres Term Early NetTop.
 From SP Require Result TaskFS TmpInv Slots NetSlots FanIn StreamReg.
 
 (* T1: runProcs starts every selected process except the driver, runs the driver in the caller and waits for all;
@@ -212,6 +212,25 @@ Theorem C05_stream_and_regular_refuted :
              /\ StreamReg.stuck true s = true /\ StreamReg.final s = false).
 Proof. split; [exact StreamReg.both_refuted | exact StreamReg.both_is_stuck]. Qed.
 
+(* T1, call cones: every function of scipipe that the functions above can reach (calls and function values, interface calls
+   resolved to every implementation) is one the models were compared with -- a helper that is new to the cone, or a new call
+   of an old one, changes a list (the lists are regenerated from /repo on every run; ExpectedCones.v holds the accepted ones) *)
+Theorem C05_cone_conforms :
+  strs_eqb cone_Workflow_runProcs exp_cone_Workflow_runProcs
+  && strs_eqb cone_Workflow_Run exp_cone_Workflow_Run
+  && strs_eqb cone_Workflow_reconnectDeadEndConnections exp_cone_Workflow_reconnectDeadEndConnections
+  && strs_eqb cone_Sink_Run exp_cone_Sink_Run
+  && strs_eqb cone_Process_Run exp_cone_Process_Run
+  && strs_eqb cone_Process_createTasks exp_cone_Process_createTasks
+  && strs_eqb cone_BaseProcess_CloseOutPorts exp_cone_BaseProcess_CloseOutPorts
+  && strs_eqb cone_OutPort_Close exp_cone_OutPort_Close
+  && strs_eqb cone_InPort_CloseConnection exp_cone_InPort_CloseConnection
+  && strs_eqb cone_Task_Execute exp_cone_Task_Execute
+  && strs_eqb cone_Workflow_IncConcurrentTasks exp_cone_Workflow_IncConcurrentTasks
+  && strs_eqb cone_Workflow_DecConcurrentTasks exp_cone_Workflow_DecConcurrentTasks
+  && strs_eqb cone_FinalizePaths exp_cone_FinalizePaths = true.
+Proof. vm_compute. reflexivity. Qed.
+
 Print Assumptions C05_code_conforms.
 Print Assumptions C05_no_deadlock.
 Print Assumptions C05_terminates.
@@ -234,3 +253,4 @@ Print Assumptions C05_stream_only_progress.
 Print Assumptions C05_stream_reg_step_decreases.
 Print Assumptions C05_stream_only_nonvacuous.
 Print Assumptions C05_stream_and_regular_refuted.
+Print Assumptions C05_cone_conforms.
